@@ -886,3 +886,9 @@ def run(ctx, rep):
     ncs = purity.check_class_state(ctx, rep, 'C13.S')
     if ncs < 80:
         rep.incomplete('C13.S', '*', '', f"only {ncs} classmethods scanned")
+    # C13.F (defaults): an object built from a specification that does not mention an option is configured like one built directly — the literal default a from_json uses
+    # for `data.get(key, default)` is the default of the constructor parameter it feeds
+    from sa import callbind
+    njd = callbind.check_json_defaults(ctx, rep, 'C13.F')
+    if njd < 10:
+        rep.incomplete('C13.F', 'defaults', '', f"only {njd} option defaults compared")
